@@ -26,7 +26,9 @@ CFG.update({
                 "conflict kind of the property is refused - one lemma per kind - and a declaration with none is "
                 "always accepted); a whole table is accepted iff it is pairwise conflict-free; in an accepted table "
                 "no request is served by two declarations and every declaration is reached by a witness request at "
-                "every version of its range; over any registration history the accepted set stays conflict-free. "
+                "every version of its range; over any registration history the accepted set stays conflict-free; "
+                "the scalar test of parameter types terminates (well-founded measure) and refuses a type that contains "
+                "itself through allOf/anyOf/oneOf (the real function overflowed the stack before fix 97a0ad7). "
                 "Correspondence with ApiDescription::register and lookup_route on generated histories, judged in Coq. "
                 "The validators that run before the router (tag policy, path variables = path parameters, path/query "
                 "name clash, scalar / string-array parameter types with reference resolution) are modelled in "
